@@ -1160,7 +1160,10 @@ def operand_leaves(body, op):
     o = origins(body, [op.place[0]], through_calls=True)
     calls = sorted({body.blocks[c].term.cmethod or cnorm_(body.blocks[c].term) for c in o.calls} - PURE_METHODS)
     # rename-proof: fields by (owner type, index), parameters by position; fields of tuples (checked-arithmetic results, multiple returns) are noise
-    fields = sorted({'/'.join('%s#%d' % (of, ix) for of, ix in f) for f in o.fields_ix if f and not any(of.startswith('(') or of == '' for of, ix in f)})
+    # ... and so are the payloads of the std carriers (`if let Ok(x)` vs `?` vs `match`): Result / Option / ControlFlow
+    CARRIERS = ('std::result::Result', 'std::option::Option', 'std::ops::ControlFlow')
+    fields = sorted({'/'.join('%s#%d' % (of, ix) for of, ix in f if of not in CARRIERS) for f in o.fields_ix
+                     if f and not any(of.startswith('(') or of == '' for of, ix in f) and any(of not in CARRIERS for of, ix in f)})
     params = sorted('arg%d' % p for p in o.params)
     named = sorted({(c.get('def') or '') for c in o.consts if c.get('def')})
     return ('val', tuple(fields), tuple(params), tuple(calls), tuple(named))
@@ -1169,3 +1172,52 @@ def operand_leaves(body, op):
 def site_leaves(body, site):
     ops = site.ops if site.ops else (site.term.args if site.term is not None and site.term.kind == 'call' else [])
     return [site.kind] + [list(operand_leaves(body, o)) for o in ops]
+
+
+# ---------------------------------------------------------------------------------------------------------------------
+# accumulators: `place += x` on a field of a struct reached through a reference parameter (or a reference captured by a closure). What a review of such
+# a site argues about is the counter (what it counts, how fast it can grow), wherever the addition is written: in the method, in a closure of it.
+
+def _struct_path(fields_ix):
+    return '/'.join('%s#%d' % (of, ix) for of, ix in fields_ix)
+
+
+def accumulator_field(prog, body, site):
+    """'Owner#idx[/..]' of the field that the overflow-checked addition of `site` updates in place, or None"""
+    from .core import place_fields_ix, closure_captures
+    if site.kind != 'Add' or site.term is None or site.term.kind != 'assert' or site.term.target is None:
+        return None
+    tb = body.blocks[site.term.target]
+    dests = [norm_place_c(body, st.place) for st in tb.stmts[:4] if st.kind == 'assign' and st.place[1] and st.rv.r == 'use' and st.rv.ops and st.rv.ops[0].place is not None and
+             any(p[0] == 'f' and p[1] == 0 and str(p[3]).startswith('(') for p in st.rv.ops[0].place[1])]
+    if len(dests) != 1:
+        return None
+    dst = dests[0]
+    hit = False
+    for o in site.ops:
+        e = expr_of(body, o)
+        if e[0] == 'place' and e[1][1]:
+            src = norm_place_c(body, e[1])
+            if src[0] == dst[0] and [p[:2] for p in src[1]] == [p[:2] for p in dst[1]]:
+                hit = True
+    if not hit or not (1 <= dst[0] <= body.arg_count):
+        return None
+    fx = place_fields_ix(dst)
+    if not fx:
+        return None
+    if body.kind == 'Closure' and fx[0][0].startswith('{closure'):
+        parent = prog.body(body.pkg, body.defpath.rsplit('::{closure#', 1)[0])
+        caps = closure_captures(prog, parent, body) if parent is not None else None
+        k = fx[0][1]
+        if caps is None or k >= len(caps):
+            return None
+        pe = expr_of(parent, caps[k])
+        if pe[0] not in ('ref', 'place'):
+            return None
+        pp = norm_place_c(parent, pe[1])
+        if not (1 <= pp[0] <= parent.arg_count):
+            return None
+        fx = tuple(place_fields_ix(pp)) + tuple(fx[1:])
+        if not fx:
+            return None
+    return _struct_path(fx)
